@@ -123,3 +123,27 @@ func VerifC11b_SmallInbox_2() {
 }
 func VerifC11b_Listening_2() { verifC11Listening(2) }
 func VerifC11b_Listening_3() { verifC11Listening(3) }
+
+// C11.c: the same catch event is reached a second time (a loop, or a later token): it listens again and continues exactly
+// once per delivered matching event, and every delivery returns
+func VerifC11c_Revisit() {
+	inst, h1, _ := verifC11Inst()
+	if inst == nil {
+		return
+	}
+	var returned int64
+	verifC11Start(inst)
+	inst.proc.ConsumeEvent(event.NewSignalEvent("sig1"))
+	verifAdd(&returned, 1)
+	verifQuiesce()
+	verifAssert(verifGet(h1) == 1, "a listening catch event continues exactly once on a matching event")
+	verifC11Start(inst) // a second token reaches the same node
+	go func() {
+		inst.proc.ConsumeEvent(event.NewSignalEvent("sig1"))
+		verifAdd(&returned, 1)
+	}()
+	verifQuiesce()
+	verifReach("quiescent")
+	verifAssert(verifGet(&returned) == 2, "delivering an event returns whether or not the catch events have been reached")
+	verifAssert(verifGet(h1) == 2, "a catch event that is reached again listens again and continues once per matching event")
+}
